@@ -1,4 +1,5 @@
 import LivesimVerif.Model.Receiver
+import LivesimVerif.Model.Renum
 import Driver.Util
 /-! Driver ops for C17: `ctr`, `buf`, `gen`. -/
 open Drv Recv
@@ -119,4 +120,36 @@ def opGen (args : List String) : String :=
       let sets := (ass.splitOn "|").map (fun a => a.splitOn "+")
       joinWith ";" (runOps genOp { g := Gen.new w, ass := sets } (if ops = "-" then [] else ops.splitOn ","))
     | none => "bad-op"
+  | _ => "bad-op"
+
+/-! op `renum <startNr> <track:seqIn:dts;…>`: uploads to a fresh receiver channel in the given order (`v` = the master
+video track, 90 kHz, 2 s segments; `a` = audio, 48 kHz); the channel starts after the second master upload.  One item per
+upload: the number it is stored under and the decode time written (`nr@dts`). -/
+def opRenum (args : List String) : String :=
+  match args with
+  | [startNr, ups] =>
+    match startNr.toNat?, (ups.splitOn ";").mapM (fun u =>
+        match u.splitOn ":" with
+        | [t, s, d] => match s.toNat?, d.toNat? with
+          | some s, some d => if t = "v" ∨ t = "a" then some (t, s, d) else none
+          | _, _ => none
+        | _ => none) with
+    | some startNr, some ups =>
+      let step := fun (acc : (Option (Nat × Nat) × Option Renum.Start) × List String) (u : String × Nat × Nat) =>
+        let ((first, st), outs) := acc
+        let ts := if u.1 = "v" then 90000 else 48000
+        let res := Renum.stored st startNr u.2.1 u.2.2 ts
+        let out := match res with
+          | some (nr, t) => s!"{nr}@{t}"
+          | none => "PANIC"
+        -- the channel start: the master's second consecutive upload
+        let (first', st') :=
+          if u.1 = "v" ∧ st.isNone then
+            match first with
+            | none => (some (u.2.1, u.2.2), st)
+            | some (s0, d0) => if u.2.1 = s0 + 1 then (first, some (Renum.start s0 d0 180000 90000)) else (some (u.2.1, u.2.2), st)
+          else (first, st)
+        ((first', st'), outs ++ [out])
+      " ".intercalate (ups.foldl step ((none, none), [])).2
+    | _, _ => "bad-op"
   | _ => "bad-op"
